@@ -201,7 +201,8 @@ func MakeStructBuilder(model any, optArgs ...FillerFuncArg) (Provider, error) {
 
 	// Field handling.  A closure so that it can be invoked recursively
 	// since that's how you have to traverse nested structures.
-	var additionalReflectives []any
+	// post-actions run in the documented order: by tag, then by name, then by type
+	var byTagReflectives, byNameReflectives, byTypeReflectives []any
 	var mapStruct func(t reflect.Type, path []int) error
 	mapStruct = func(t reflect.Type, path []int) error {
 		for i := 0; i < t.NumField(); i++ {
@@ -219,7 +220,7 @@ func MakeStructBuilder(model any, optArgs ...FillerFuncArg) (Provider, error) {
 			var noSkip bool
 			var whole bool
 			var hardSkip bool
-			handleFieldFiller := func(fun postActionOption, description string) error {
+			handleFieldFiller := func(fun postActionOption, description string, reflectives *[]any) error {
 				if hardSkip {
 					return nil
 				}
@@ -236,7 +237,7 @@ func MakeStructBuilder(model any, optArgs ...FillerFuncArg) (Provider, error) {
 						skip = true
 					}
 				}
-				additionalReflectives = append(additionalReflectives, ap)
+				*reflectives = append(*reflectives, ap)
 				return nil
 			}
 
@@ -271,7 +272,7 @@ func MakeStructBuilder(model any, optArgs ...FillerFuncArg) (Provider, error) {
 							// PostActionByTag
 							if fun, ok := options.postActionByTag[tv]; ok {
 								err := handleFieldFiller(fun, fmt.Sprintf(
-									"PostActionByTag(%s, func) for %s", tv, originalType))
+									"PostActionByTag(%s, func) for %s", tv, originalType), &byTagReflectives)
 								if err != nil {
 									return err
 								}
@@ -285,7 +286,7 @@ func MakeStructBuilder(model any, optArgs ...FillerFuncArg) (Provider, error) {
 
 			if fun, ok := options.postActionByName[field.Name]; ok {
 				err := handleFieldFiller(fun, fmt.Sprintf(
-					"PostActionByName(%s, func) for %s", field.Name, originalType))
+					"PostActionByName(%s, func) for %s", field.Name, originalType), &byNameReflectives)
 				if err != nil {
 					return err
 				}
@@ -299,7 +300,7 @@ func MakeStructBuilder(model any, optArgs ...FillerFuncArg) (Provider, error) {
 			for _, typ := range fieldTypes {
 				for _, fun := range byType[getTypeCode(typ)] {
 					err := handleFieldFiller(fun,
-						fmt.Sprintf("PostActionByType(%s) for %s", fun.function, originalType))
+						fmt.Sprintf("PostActionByType(%s) for %s", fun.function, originalType), &byTypeReflectives)
 					if err != nil {
 						return err
 					}
@@ -337,7 +338,9 @@ func MakeStructBuilder(model any, optArgs ...FillerFuncArg) (Provider, error) {
 		chain = append(chain, ignore{})
 	}
 	chain = append(chain, p)
-	chain = append(chain, additionalReflectives...)
+	chain = append(chain, byTagReflectives...)
+	chain = append(chain, byNameReflectives...)
+	chain = append(chain, byTypeReflectives...)
 	for _, name := range options.postMethodName {
 		m, err := generatePostMethod(originalType, name)
 		if err != nil {
